@@ -16,7 +16,10 @@ LEVEL = 'exploration'
 RULE = ('(a) concatenation law: 2-5 independently generated files that differ '
         'in payloads and in the length of the stacked dimension, stacked along '
         'every kind of axis (leading/non-leading, unlimited or not) by the '
-        'stack method or stack_files; (b) inverse law: a random partition of a '
+        'stack method, stack_files, or - on netCDF pieces saved under names '
+        'whose sorted order differs from argument order - pncmfopen / '
+        'open_mfdataset; every in-memory stack is repeated with the same '
+        'argument objects; (b) inverse law: a random partition of a '
         'dimension into 1..5 consecutive pieces cut with sliceDimensions, '
         'restacked, compared with the original (data, masks, dimension '
         'name->(length, unlimited), global and variable attributes), and each '
